@@ -102,7 +102,7 @@ def make_options(adaptive, screening):
 # ----------------------------------------------------------------------------- adaptive_euler_step
 
 
-def run_retry(mutate=None, adaptive=True):
+def run_retry(mutate=None, adaptive=True, prefixes=("C12.",)):
     """loop RETRY of adaptive_euler_step cut at the invariant; solve_for_psi_squared replaced by its contract stub"""
     V = vcm.VC()
     L = load(mutate, V)
@@ -110,6 +110,7 @@ def run_retry(mutate=None, adaptive=True):
 
     def body():
         c = sym.ctx()
+        c.record_prefixes = tuple(prefixes)
         R = z3.Real
         s = Solver.__new__(Solver)
         s.options = make_options(adaptive, False)
@@ -132,6 +133,9 @@ def run_retry(mutate=None, adaptive=True):
             check_same("C12.retry.forwards_state_unchanged", [(kw["psi"], psi), (kw["abs_sq_psi"], absq), (kw["mu"], mu), (kw["epsilon"], eps),
                                                                (kw["psi_laplacian"], ops.psi_laplacian)])
             check("C12.retry.forwards_gamma_u", z3.And(sym.eq(kw["gamma"], s.gamma), sym.eq(kw["u"], s.u)))
+            # C06: EVERY attempt (the first one and each retried one) is a step of the solver's own psi Laplacian - the operator that carries the
+            # pinned rows - applied to the order parameter the caller handed in
+            check_same("C06.euler_step.every_attempt_uses_the_operator_with_the_pinned_rows_on_the_callers_psi", [(kw["psi"], psi), (kw["psi_laplacian"], ops.psi_laplacian)])
             G["ncalls"] = G["ncalls"] + 1
             G["last_dt"] = SR.lift(kw["dt"])
             refused = bool(SB(sym.FreshBool("refused")))
@@ -203,6 +207,10 @@ def run_retry(mutate=None, adaptive=True):
         check_same("C12.retry_rule.result_is_answered_attempt", [(psi1, G["last_result"][0]), (sq1, G["last_result"][1])] if G["last_result"] is not None else [],
                    also=G["last_result"] is not None)
         check("C12.retry_rule.dt_is_dt_of_answered_attempt", SR.lift(dt_out).e == G["last_dt"].e)
+        # C06: whatever attempt is answered, the arrays handed back are that attempt's answer as it is (the pinned-site clause proved on
+        # solve_for_psi_squared carries over to every return path only then)
+        check_same("C06.euler_step.answer_is_the_answered_attempts_result_on_every_return_path", [(psi1, G["last_result"][0]), (sq1, G["last_result"][1])] if G["last_result"] is not None else [],
+                   also=G["last_result"] is not None)
         check("C12.retry_rule.dt_is_dt_in_times_multiplier_pow_refusals", z3.And(SR.lift(dt_out).e == (dt_in * SR(POW(r.e))).e, G["ncalls"].e == r.e + 1))
         check("C12.positive.dt_returned_positive", SR.lift(dt_out).e > 0)
         check("C12.bounded.dt_returned_at_most_dt_in", z3.Implies(z3.And(POW(r.e) <= 1), SR.lift(dt_out).e <= dt_in.e))
